@@ -260,7 +260,7 @@ theorem C16_bar_any_trades_cash (c : TokenCfg) (s : DState) (b : Bar) :
         (if (Deribit.midState DCtx.exact c s b).onGrid then
           (((Deribit.midState DCtx.exact c s b).positions.filter (fun kp => Deribit.due (Deribit.midState DCtx.exact c s b) kp.2)).map
             (fun kp => netPayoff c (Deribit.midState DCtx.exact c s b) kp.2)).sum else 0) := by
-  rw [(Deribit.runBar_mid DCtx.exact c s b).2.2, C16_cash_moves_by_payoffs]
+  rw [(Deribit.runBar_mid DCtx.exact c s b).2.2, Deribit.update_cash_eq]
   split <;> simp
 
 /-- **Expired records = settlements, over any run**: however the strategy trades (any instruments, accepted or rejected orders, any
